@@ -49,17 +49,21 @@ class Log:
 
 
 class StatsDict(dict):
-    """node.stats with a tap on the discard / received counters"""
+    """node.stats with a tap on the discard / received counters; the item concerned is read from the
+    frame of the node process that increments the counter"""
 
     def __init__(self, d, log, nidx):
         super().__init__(d)
         self._log, self._n = log, nidx
 
     def __setitem__(self, k, v):
-        if k == "num_item_discarded" and v != self.get(k):
-            self._log.lines.append("D %d %d" % (self._log.env.now, self._n))
-        if k == "num_item_received" and v != self.get(k):
-            self._log.lines.append("R %d %d" % (self._log.env.now, self._n))
+        if k in ("num_item_discarded", "num_item_received") and v != self.get(k):
+            f = sys._getframe(1)
+            it = f.f_locals.get("item")
+            if k == "num_item_received":
+                it = getattr(f.f_locals.get("self"), "item_in_process", it)
+            self._log.lines.append("%s %d %d %d" % ("D" if k == "num_item_discarded" else "R", self._log.env.now, self._n,
+                                                    getattr(it, "_vidx", -1)))
         super().__setitem__(k, v)
 
 
@@ -245,9 +249,7 @@ def canon_model(lines):
     out, sel = [], {}
     for l in lines:
         w = l.split()
-        if w[0] in ("D", "R"):
-            out.append(" ".join(w[:3]))
-        elif w[0] == "T":
+        if w[0] == "T":
             out.append(" ".join(w[:4]))
         elif w[0] == "S":
             sel.setdefault(int(w[1]), []).append(l)
